@@ -1,1 +1,6 @@
-#[allow(unused_imports)] use super::*;
+#[allow(unused_imports)]
+use super::*;
+
+pub fn markers<TS: TimeSource>(s: &BeaconSerializer<TS>) -> (String, String) {
+    (s.begin(), s.end())
+}
